@@ -153,7 +153,7 @@ Eval vm_compute in (length cases, length (filter (fun c => negb (ok c)) cases)).
     # ---------------- analytical finite-line-source anchor (validated by computation only)
     fl = [{"nx": 1, "ny": 1, "B": 5.0, "H": 100.0, "D": 2.0, "rb": 0.075, "stride": 4}, {"nx": 2, "ny": 3, "B": 5.0, "H": 150.0, "D": 4.0, "rb": 0.06, "stride": 6}]
     if not quick:
-        fl += [{"nx": 3, "ny": 3, "B": 6.0, "H": 80.0, "D": 1.0, "rb": 0.1, "stride": 5}, {"nx": 1, "ny": 1, "B": 5.0, "H": 300.0, "D": 3.0, "rb": 0.05, "stride": 3}]
+        fl += [{"nx": 3, "ny": 3, "B": 6.0, "H": 80.0, "D": 1.0, "rb": 0.1, "stride": 5}, {"nx": 1, "ny": 1, "B": 5.0, "H": 300.0, "D": 3.0, "rb": 0.065, "stride": 3}]
     with ThreadPoolExecutor(max_workers=NPROC) as ex:
         r4 = list(ex.map(lambda c: run_impl("gf_drv.py", {"mode": "fls", "cases": [c]}, timeout=1500), fl))
     for c, rr in zip(fl, r4):
